@@ -30,6 +30,21 @@ def _setup(k):
 # --------------------------------------------------------------------------
 # DSL -> jax functions
 
+NP_DTYPES = {'f32': 'float32', 'i32': 'int32', 'f16': 'float16', 'bf16': 'bfloat16', 'i8': 'int8', 'u8': 'uint8',
+             'bool': 'bool'}
+
+
+def leaf_dtype(lp):
+  return lp.get('dtype') or ('i32' if lp['int'] else 'f32')
+
+
+def _np_dtype(np, name):
+  if name == 'bf16':
+    import jax.numpy as jnp
+    return jnp.bfloat16
+  return np.dtype(NP_DTYPES[name])
+
+
 def build_program(prog, wsr):
   import jax.numpy as jnp
   leaves = prog['leaves']
@@ -63,6 +78,10 @@ def build_program(prog, wsr):
         v = batch['x']
       elif lp['step'] == 2:
         v = s
+      elif lp['step'] == 3:           # s + d in the leaf's own (narrow) dtype
+        v = s + jnp.asarray(lp['d'], dtype=jnp.asarray(s).dtype)
+      elif lp['step'] == 4:           # boolean leaf: not s
+        v = jnp.logical_not(s)
       else:
         g = bn if lp['int'] else bsum
         c = lp['b'] * g + lp['d']
@@ -96,41 +115,120 @@ def build_program(prog, wsr):
   return client_init, client_step, client_final
 
 
-def _arr(np, vals, shape, is_int):
-  return np.array(vals, dtype=np.int32 if is_int else np.float32).reshape(shape)
-
-
 def build_inputs(case, use_jax):
   """Fresh arrays for one backend call.  Returns (shared, clients, handles) where
-  handles = [(name, array object, expected numpy copy)]."""
+  handles = [(name, array object, expected numpy copy)].  0-d leaves may be delivered as
+  NumPy scalars or Python scalars (`scalar_form`); the client input / shared input may be
+  an empty pytree when the program never reads it."""
   import numpy as np
   import jax.numpy as jnp
   prog = case['prog']
   leaves = prog['leaves']
   handles = []
+  sform = case.get('scalar_form', 'array')
 
-  def mk(name, vals, shape, is_int):
-    a = _arr(np, vals, shape, is_int)
+  def mk(name, vals, shape, dt, scalar_ok=False):
+    a = np.array(vals, dtype=_np_dtype(np, dt)).reshape(shape)
+    if scalar_ok and list(shape) == [] and sform != 'array' and dt in ('f32', 'i32'):
+      obj = a[()] if sform == 'np' else a[()].item()     # np.float32(..) / python float
+      handles.append((name, obj, a.copy()))
+      return obj
     obj = jnp.array(a) if use_jax else a
     handles.append((name, obj, a.copy()))
     return obj
 
-  shared = {'s': tuple(mk('shared[%d]' % k, case['shared'][k], lp['shape'], lp['int']) for k, lp in enumerate(leaves))}
+  if case.get('shared_form') == 'none':
+    shared = None
+  else:
+    shared = {'s': tuple(mk('shared[%d]' % k, case['shared'][k], lp['shape'], leaf_dtype(lp), True)
+                         for k, lp in enumerate(leaves))}
   clients = []
   for cid, batches, cin in case['clients']:
-    bl = [{'x': mk('client %r batch %d x' % (cid, j), b[0], [len(b[0])], False),
-           'y': mk('client %r batch %d y' % (cid, j), b[1], [len(b[1])], True)} for j, b in enumerate(batches)]
-    ci = tuple(mk('client %r input[%d]' % (cid, k), cin[k], lp['shape'], lp['int']) for k, lp in enumerate(leaves))
+    bl = [{'x': mk('client %r batch %d x' % (cid, j), b[0], [len(b[0])], 'f32'),
+           'y': mk('client %r batch %d y' % (cid, j), b[1], [len(b[1])], 'i32')} for j, b in enumerate(batches)]
+    cf = case.get('cin_form', 'tuple')
+    if cf == 'empty':
+      ci = ()
+    elif cf == 'none':
+      ci = None
+    else:
+      ci = tuple(mk('client %r input[%d]' % (cid, k), cin[k], lp['shape'], leaf_dtype(lp), True)
+                 for k, lp in enumerate(leaves))
     clients.append((_ext_id(case, cid), bl, ci))
   return shared, clients, handles
 
 
-def as_passed(case, clients):
-  """The clients collection as handed to fedjax: the caller's own list of (id, batches, input)
-  tuples; batches are the caller's own python lists, or (lazy) fresh iterators over them."""
-  if case.get('lazy'):
-    return [(cid, iter(bl), ci) for cid, bl, ci in clients]
-  return clients
+class Tracker:
+  """Counts how far one-shot iterables handed to fedjax were consumed."""
+
+  def __init__(self):
+    self.items = []     # [name, expected, taken, exhausted]
+
+  def wrap(self, name, seq, form):
+    if form in ('list', None):
+      return seq
+    if form == 'tuple':
+      return tuple(seq)
+    rec = [name, len(seq), 0, False]
+    self.items.append(rec)
+
+    def gen():
+      for x in seq:
+        rec[2] += 1
+        yield x
+      rec[3] = True
+    if form == 'gen':
+      return gen()
+    if form == 'iter':
+      return _CountingIter(seq, rec)
+    if form == 'map':
+      return map(lambda x: x, gen())
+    raise ValueError('form ' + form)
+
+  def problems(self):
+    return ['%s: %d of %d items taken%s' % (n, t, e, '' if x else ', not exhausted')
+            for n, e, t, x in self.items if t != e or not x]
+
+
+class _CountingIter:
+  """iter(list)-like one-shot iterator that records consumption."""
+
+  def __init__(self, seq, rec):
+    self._it, self._rec = iter(seq), rec
+
+  def __iter__(self):
+    return self
+
+  def __next__(self):
+    try:
+      v = next(self._it)
+    except StopIteration:
+      self._rec[3] = True
+      raise
+    self._rec[2] += 1
+    return v
+
+
+def as_passed(case, clients, tracker=None):
+  """The clients collection as handed to fedjax.  `batches_form`: the caller's own python
+  list, a tuple, or a one-shot generator / iterator / map over it; `clients_form`: the
+  caller's own list, a tuple, a one-shot generator / iterator / map, or a generator over the
+  items of a dict keyed by client id."""
+  tracker = tracker or Tracker()
+  bform = case.get('batches_form') or ('iter' if case.get('lazy') else 'list')
+  cform = case.get('clients_form', 'list')
+  if bform == 'list':
+    cl = clients
+  else:
+    cl = [(cid, tracker.wrap('batches of client %r' % (cid,), bl, bform), ci) for cid, bl, ci in clients]
+  if cform == 'list':
+    return cl
+  if cform == 'dictitems':
+    d = {cid: (b, ci) for cid, b, ci in cl}
+    if len(d) == len(cl):
+      return ((k, v[0], v[1]) for k, v in d.items())
+    cform = 'gen'
+  return tracker.wrap('clients', cl, cform)
 
 
 def container_snapshot(shared, clients):
@@ -138,25 +236,30 @@ def container_snapshot(shared, clients):
   element identities of the clients list, each client tuple, each batches list, each batch
   dict, each client-input tuple and the shared-input dict / tuple."""
   snap = [('clients list', [id(c) for c in clients])]
-  snap.append(('shared dict', sorted((k, id(v)) for k, v in shared.items())))
-  snap.append(('shared tuple', [id(v) for v in shared['s']]))
+  if shared is not None:
+    snap.append(('shared dict', sorted((k, id(v)) for k, v in shared.items())))
+    snap.append(('shared tuple', [id(v) for v in shared['s']]))
   for n, c in enumerate(clients):
     cid, bl, ci = c
     snap.append(('client #%d tuple' % n, [repr(cid), id(bl), id(ci), len(c)]))
     snap.append(('client #%d (%r) batches list' % (n, cid), [id(b) for b in bl]))
     for j, b in enumerate(bl):
       snap.append(('client #%d (%r) batch %d dict' % (n, cid, j), sorted((k, id(v)) for k, v in b.items())))
-    snap.append(('client #%d (%r) input tuple' % (n, cid), [id(v) for v in ci]))
+    if ci is not None:
+      snap.append(('client #%d (%r) input tuple' % (n, cid), [id(v) for v in ci]))
   return snap
 
 
 def _ext_id(case, cid):
-  """The client id as given to fedjax: any hashable (int, bytes or str)."""
+  """The client id as given to fedjax: any hashable.  Id 0 is delivered as the FALSY value
+  of the kind: 0, b'', '', ()."""
   kind = case.get('idkind', 'int')
   if kind == 'bytes':
-    return b'c%d' % cid
+    return b'c%d' % cid if cid else b''
   if kind == 'str':
-    return 'c%d' % cid
+    return 'c%d' % cid if cid else ''
+  if kind == 'tuple':
+    return (cid,) if cid else ()
   return cid
 
 
@@ -165,10 +268,12 @@ def _int_id(case, x):
   try:
     if x is None:
       return None
-    if kind == 'bytes' and isinstance(x, bytes) and x[:1] == b'c':
-      return int(x[1:])
-    if kind == 'str' and isinstance(x, str) and x[:1] == 'c':
-      return int(x[1:])
+    if kind == 'bytes' and isinstance(x, bytes):
+      return 0 if x == b'' else int(x[1:]) if x[:1] == b'c' else repr(x)
+    if kind == 'str' and isinstance(x, str):
+      return 0 if x == '' else int(x[1:]) if x[:1] == 'c' else repr(x)
+    if kind == 'tuple' and isinstance(x, tuple):
+      return 0 if x == () else x[0] if len(x) == 1 and isinstance(x[0], int) else repr(x)
     if kind == 'int' and isinstance(x, int) and not isinstance(x, bool):
       return x
   except ValueError:
@@ -178,6 +283,9 @@ def _int_id(case, x):
 
 def _canon_leaf(np, x):
   a = np.asarray(x)
+  name = str(a.dtype)
+  if name in ('bfloat16', 'float16'):
+    a = a.astype(np.float32)
   flat = a.reshape(-1).tolist()
   if a.dtype.kind == 'f':
     vals = [v if np.isfinite(v) else ('nan' if v != v else ('inf' if v > 0 else '-inf')) for v in (float(u) for u in flat)]
@@ -185,55 +293,122 @@ def _canon_leaf(np, x):
     vals = [int(v) for v in flat]
   else:
     vals = [repr(v) for v in flat]
-  return {'dtype': str(a.dtype), 'shape': list(a.shape), 'v': vals}
+  return {'dtype': name, 'shape': list(a.shape), 'v': vals}
 
 
 def _canon_tree(np, jax, t):
   return [_canon_leaf(np, x) for x in jax.tree_util.tree_leaves(t)]
 
 
-def run_backend(case, backend):
-  import numpy as np
+_INSTANCES = {}     # backend objects that live as long as the worker: reused across cases
+
+
+def _make_f(case, backend, prog_fns, wsr):
+  """for_each_client through one of its entry points (`via`)."""
   import jax
   import fedjax
   from fedjax.core import for_each_client as fec
-  wsr = bool(case['wsr'])
-  init, step, final = build_program(case['prog'], wsr)
-  shared, clients, handles = build_inputs(case, bool(case.get('jaxin')))
-  o = {'err': None, 'yields': [], 'deleted': [], 'changed': [], 'containers': [], 'repeat': None}
-  before = container_snapshot(shared, clients)
-
-  def call(f):
-    ys = []
-    for item in f(shared, as_passed(case, clients)):
-      if wsr:
-        cid, out, res = item
-        res_c = [_canon_tree(np, jax, r) for r in res]
-      else:
-        cid, out = item
-        res_c = None
-      ys.append({'id': _int_id(case, cid), 'out': _canon_tree(np, jax, out), 'res': res_c})
-    return ys
-
-  try:
-    if backend == 'pmap':
-      d = case.get('D')
-      if d is None or d == jax.local_device_count():
-        be = 'pmap'
-      else:
-        be = fec.ForEachClientPmapBackend(devices=jax.local_devices()[:d])
-    else:
-      be = backend
-    with fedjax.for_each_client_backend(be):
-      f = fedjax.for_each_client(init, step, final, with_step_result=wsr)
-    o['yields'] = call(f)
-    # the same call once more on the very same caller objects: must give the same yields
+  init, step, final = prog_fns
+  d = case.get('D')
+  partial_devices = backend == 'pmap' and d is not None and d != jax.local_device_count()
+  via = case.get('via', 'ctx')
+  if partial_devices:
+    be = fec.ForEachClientPmapBackend(devices=jax.local_devices()[:d])
+  elif via in ('instance', 'direct'):
+    key = (backend, via)
+    if key not in _INSTANCES:
+      _INSTANCES[key] = {'jit': fec.ForEachClientJitBackend, 'debug': fec.ForEachClientDebugBackend,
+                         'pmap': fec.ForEachClientPmapBackend}[backend]()
+    be = _INSTANCES[key]
+  else:
+    be = backend
+  omit_final = bool(case.get('default_final'))
+  if via == 'direct' and wsr and not omit_final:
+    return be(init, step, final)          # the backend object itself is the factory
+  kwargs = {'with_step_result': wsr}
+  if case.get('kw'):
+    kwargs.update(client_init=init, client_step=step)
+    args = ()
+    if not omit_final:
+      kwargs['client_final'] = final
+  else:
+    args = (init, step) if omit_final else (init, step, final)
+  if via == 'set':
+    old = fedjax.get_for_each_client_backend()
+    fedjax.set_for_each_client_backend(be)
     try:
-      again = call(f)
-      key = lambda y: json.dumps(y, sort_keys=True)
-      o['repeat'] = 'same' if sorted(map(key, again)) == sorted(map(key, o['yields'])) else 'differs'
+      return fedjax.for_each_client(*args, **kwargs)
+    finally:
+      fedjax.set_for_each_client_backend(old)
+  with fedjax.for_each_client_backend(be):
+    return fedjax.for_each_client(*args, **kwargs)
+
+
+def run_backend(case, backend, prog_fns):
+  import itertools
+  import numpy as np
+  import jax
+  wsr = bool(case['wsr'])
+  shared, clients, handles = build_inputs(case, bool(case.get('jaxin')))
+  o = {'err': None, 'yields': [], 'deleted': [], 'changed': [], 'containers': [], 'repeat': None, 'iterables': [],
+       'kept': []}
+  before = container_snapshot(shared, clients)
+  key = lambda y: json.dumps(y, sort_keys=True)
+
+  def canon(item):
+    if wsr:
+      cid, out, res = item
+      res_c = [_canon_tree(np, jax, r) for r in res]
+    else:
+      cid, out = item
+      res_c = None
+    return {'id': _int_id(case, cid), 'out': _canon_tree(np, jax, out), 'res': res_c}
+
+  f = None
+  try:
+    f = _make_f(case, backend, prog_fns, wsr)
+    tracker = Tracker()
+    kept = list(f(shared, as_passed(case, clients, tracker)))      # the caller KEEPS these results
+    o['yields'] = [canon(it) for it in kept]
+    o['iterables'] = tracker.problems()
+    # a later call on the very same caller objects (several access patterns): same yields
+    mode = case.get('second', 'repeat')
+    try:
+      if mode == 'interleave':
+        g1, g2 = f(shared, as_passed(case, clients)), f(shared, as_passed(case, clients))
+        r1, r2 = [], []
+        for x, y in itertools.zip_longest(g1, g2):
+          if x is not None:
+            r1.append(canon(x))
+          if y is not None:
+            r2.append(canon(y))
+        runs = [r1, r2]
+      elif mode == 'pieces':
+        g = f(shared, as_passed(case, clients))
+        first = [canon(x) for x in itertools.islice(g, 1)]
+        g = iter(g)
+        runs = [first + [canon(x) for x in g]]
+      elif mode == 'abandon':
+        g = f(shared, as_passed(case, clients))
+        next(g, None)
+        g.close()
+        runs = [[canon(x) for x in f(shared, as_passed(case, clients))]]
+      elif mode == 'disable_jit':
+        with jax.disable_jit():
+          runs = [[canon(x) for x in f(shared, as_passed(case, clients))]]
+      else:
+        runs = [[canon(x) for x in f(shared, as_passed(case, clients))]]
+      ref = sorted(map(key, o['yields']))
+      o['repeat'] = 'same' if all(sorted(map(key, r)) == ref for r in runs) else 'differs (%s)' % mode
     except Exception as ex:  # pylint: disable=broad-except
-      o['repeat'] = 'raises E' + type(ex).__name__
+      o['repeat'] = 'raises E%s (%s)' % (type(ex).__name__, mode)
+    # the results the caller kept from the FIRST call are still valid and unchanged
+    try:
+      now = [canon(it) for it in kept]
+      if sorted(map(key, now)) != sorted(map(key, o['yields'])):
+        o['kept'].append('values changed')
+    except Exception as ex:  # pylint: disable=broad-except
+      o['kept'].append('E' + type(ex).__name__)
   except Exception as ex:  # pylint: disable=broad-except
     o['err'] = 'E' + type(ex).__name__
     o['err_text'] = ''.join(traceback.format_exception_only(type(ex), ex)).strip()[:300]
@@ -258,16 +433,44 @@ def run_backend(case, backend):
       continue
     try:
       now = np.asarray(obj)
-      same = now.dtype == copy.dtype and now.shape == copy.shape and now.tobytes() == copy.tobytes()
+      same = now.shape == copy.shape and now.astype(copy.dtype).tobytes() == copy.tobytes() and \
+          (now.dtype == copy.dtype or not hasattr(obj, 'dtype'))
     except Exception:  # pylint: disable=broad-except
       same = False
     if not same:
       o['changed'].append(name)
-  return o
+  return o, f, (shared, clients)
 
 
 def run_case(case):
-  return {be: run_backend(case, be) for be in ('jit', 'debug', 'pmap')}
+  """All three backends are built from the SAME client function objects (one program per
+  case); the first-built function is called once more at the very end, after the other
+  backends were built from the same functions and run."""
+  import numpy as np
+  import jax
+  wsr = bool(case['wsr'])
+  prog_fns = build_program(case['prog'], wsr)
+  order = case.get('order') or ['jit', 'debug', 'pmap']
+  res, first = {}, None
+  for be in order:
+    o, f, inputs = run_backend(case, be, prog_fns)
+    res[be] = o
+    if first is None:
+      first = (be, f, inputs)
+  be, f, (shared, clients) = first
+  if f is not None and not res[be]['err']:
+    try:
+      ys = []
+      for item in f(shared, as_passed(case, clients)):
+        cid, out = item[0], item[1]
+        ys.append({'id': _int_id(case, cid), 'out': _canon_tree(np, jax, out),
+                   'res': [_canon_tree(np, jax, r) for r in item[2]] if wsr else None})
+      key = lambda y: json.dumps(y, sort_keys=True)
+      same = sorted(map(key, ys)) == sorted(map(key, res[be]['yields']))
+      res[be]['first_built'] = 'same' if same else 'differs'
+    except Exception as ex:  # pylint: disable=broad-except
+      res[be]['first_built'] = 'raises E' + type(ex).__name__
+  return res
 
 
 # --------------------------------------------------------------------------
